@@ -119,6 +119,52 @@ class Scheduler:
         return results
 
 
+class PingPong(Scheduler):
+    """Non-nested interleaving of two calls: A runs to its kA-th event, B starts and runs to its kB-th event, A resumes and runs to
+    completion, then B resumes and completes (A1 B1 A2 B2).  Needed for test-and-set windows: the first thread must resume while
+    the second is still in the middle of its call."""
+
+    def run_pp(self, callA, callB, kA, kB, budgets, wall=60.0):
+        self._reset()
+        self.budgets = dict(budgets)
+        results = {}
+        goA, goB = threading.Event(), threading.Event()
+        state = {"b_started": False, "a_done": False, "b_done": False}
+
+        def parkA():
+            state["b_started"] = True
+            tb.start()
+            goA.wait(wall)          # until B parks or finishes
+
+        def parkB():
+            goA.set()               # let A run on ...
+            goB.wait(wall)          # ... until A has finished
+
+        self.plan = {"A": kA, "B": kB}
+        self.on_park = {"A": parkA, "B": parkB}
+
+        def run(role, thunk, done_key, wake):
+            self.roles[threading.get_ident()] = role
+            try:
+                results[role] = ("ok", thunk())
+            except Budget as e:
+                results[role] = ("budget", str(e))
+            except BaseException as e:  # noqa: BLE001
+                results[role] = ("exc", f"{type(e).__name__}: {e}")
+            finally:
+                self.roles.pop(threading.get_ident(), None)
+                state[done_key] = True
+                wake.set()
+        ta = threading.Thread(target=run, args=("A", callA, "a_done", goB))
+        tb = threading.Thread(target=run, args=("B", callB, "b_done", goA))
+        ta.start()
+        ta.join(wall * 2)
+        if state["b_started"]:
+            goB.set()
+            tb.join(wall * 2)
+        return results
+
+
 def discover_shared_writers(thunk, classes):
     """run thunk with class-level __setattr__ write logging; returns the code objects that wrote an attribute of an
     instance of one of `classes` (the shared objects) during the run"""
